@@ -132,7 +132,8 @@ CHECKS = {
         "plain reindex / create, page semantics a parameter with a stability hypothesis): the invariant `a page whose recorded hash matches is indexed as its "
         "from-scratch page` is preserved by every operation sequence; after any history a plain reindex leaves exactly the from-scratch index of the current "
         "files (C06_equiv), a second one changes nothing (C06_quiescent). Tied to the code by random histories (edits, moved items, added / deleted / renamed "
-        "pages, clock advances) on real directories: incremental index vs fresh `db create` of a copy, row by row.",
+        "pages, deleted-then-restored pages, clock advances) on real directories: incremental index vs fresh `db create` of a copy, row by row; the saved hash map vs the files; "
+        "and every history replayed by the model (Index.run) must end in the same files, hash map and set of indexed pages.",
         note=NOTE_STD + "The page semantics (compile + write-back) is a parameter: its stability (reindexing a written-back page is a no-op) is validated by C05's runs; SQLite atomic per commit.",
         technique="Lean 4 proof (store invariant by induction over operation histories, refinement to from-scratch index) + history correspondence",
         design="§4 C06",
